@@ -80,6 +80,8 @@ def run(ctx):
                 if op == "deleteGuards":
                     if isinstance(out.get("ok"), dict):
                         del_guards[replay["schema"]] = out["ok"]
+                elif op == "trivialApplies":
+                    delguards.check_trivial_applies(ctx, replay, out)
                 else:
                     delguards.check_delete_applies(ctx, replay, out)
                 continue
@@ -176,6 +178,9 @@ def run(ctx):
                     rangeplan.tie_fit_guards(ctx, info, d, f, t, req, rst, reqs, metas)
                     # well-formedness of the emitted step (StepWF / aroundShape), exactly, and the payload of the real step
                     rangeplan.tie_fit_emit(ctx, info, val, d, f, t, req, reqs, metas)
+                    if not (f == t and not req.size):
+                        # `trivialFit_replace_applies`: a closed slice that fits trivially applies (hypotheses exactly)
+                        delguards.tie_trivial_applies(ctx, info, del_guards.get(info.name), d, f, t, req, reqs, metas)
                     if name in ("delete_range", "delete"):
                         # delete_range as a whole (widening + Fitter): the recorded step, exactly
                         rangeplan.tie_delete_range_step(ctx, info, d, f, t, reqs, metas)
